@@ -295,6 +295,7 @@ def corr_ordered_mul(ctx):
     rng = ctx.rng
     n = ctx.pick(400, 4000)
     cases, descs = [], []
+    keep = []
     nontrivial = set()
     split_checked = 0
     for _ in range(n):
@@ -319,6 +320,21 @@ def corr_ordered_mul(ctx):
         exp_lit = "[" + "; ".join(f"({zl(s)}, [{'; '.join(map(str, t))}], {zl(f)})" for s, t, f in flat) + "]"
         cases.append(f"({args_lit}, [{'; '.join(zl(k) for k in keys)}], {exp_lit})")
         descs.append({"args": args, "keys": keys, "impl": flat})
+        if _ % 3 == 0:
+            # the default key (object identity), on distinct symbols that share one display name
+            twins = [VectorSymbol("w") for _i in range(nv)]
+            exprs2 = [sympy.Add(*[c * twins[i] for c, i in a]) for a in args]
+            m2 = _ordered_mul(*exprs2)
+            idx2 = {id(s_): i for i, s_ in enumerate(twins)}
+            flat2 = []
+            if isinstance(m2, dict):
+                for sign, d in m2.items():
+                    for tup, fac in d.items():
+                        flat2.append((int(sign), [idx2[id(v)] for v in tup], int(fac)))
+            exp2 = "[" + "; ".join(f"({zl(s_)}, [{'; '.join(map(str, t))}], {zl(f)})" for s_, t, f in flat2) + "]"
+            cases.append(f"({args_lit}, [{'; '.join(zl(id(s_)) for s_ in twins)}], {exp2})")
+            descs.append({"args": args, "keys": "id() of distinct symbols all displayed as 'w'", "impl": flat2})
+            keep.append(twins)
         nontrivial.add((tuple(tuple(a) for a in args), tuple(keys)))
         # into_terms / split_factor: the (factor, vector) view recombines to the expression (symbolic factors too)
         k = sympy.Symbol("k")
@@ -496,7 +512,8 @@ def layer3(ctx, failed_rules):
         for rank in all_ranks(nv, rng, nranks):
             seed = rng.choice(seeds)
             mode = rng.choice(["auto", "auto", "doit"])
-            job = {"id": jid, "recipe": rec, "nv": nv, "ns": ns, "mode": mode, "rank": rank, "envs": envs}
+            job = {"id": jid, "recipe": rec, "nv": nv, "ns": ns, "mode": mode, "rank": rank, "envs": envs,
+                "same_name": rng.random() < 0.3}      # distinct symbols sharing one display name
             jobs_by_seed[seed].append(job)
             meta[jid] = job
             jid += 1
@@ -508,12 +525,26 @@ def layer3(ctx, failed_rules):
                 (4, ("dot", V(0), ("cross", ("cross", V(1), V(2)), V(3))), (1, 2, 0, 3)),
                 (4, ("mixed", ("vadd", V(0), V(3)), ("vadd", ("cross", V(1), V(2)), V(3)), V(3)), (1, 2, 0, 3))]:
             job = {"id": jid, "recipe": rec, "nv": nv, "ns": 2, "mode": rng.choice(["auto", "doit"]), "rank": None, "spread": roles,
-                "spread_seed": rng.randrange(10**6), "envs": [vtree.rand_env(rng, nv, 2).to_json() for _ in range(4)]}
+                "spread_seed": rng.randrange(10**6), "envs": [vtree.rand_env(rng, nv, 2).to_json() for _ in range(4)],
+                "same_name": rng.random() < 0.3}
             jobs_by_seed[None].append(job)
             meta[jid] = job
             distinct.add(rec)
             jid += 1
             n_spread += 1
+    # distinct vectors that print identically (same display name; composites of them print identically too)
+    same_family = [(2, ("cross", V(0), V(1))), (2, ("dot", V(0), V(1))), (3, ("mixed", V(0), V(1), V(2))),
+        (4, ("dot", ("cross", V(0), V(1)), ("cross", V(2), V(3)))), (4, ("cross", ("cross", V(0), V(1)), ("cross", V(2), V(3)))),
+        (3, ("mixed", ("vadd", V(0), V(1)), V(1), ("vadd", V(2), V(0)))), (2, ("norm", ("vadd", V(0), ("vscale", ("int", -1), V(1))))),
+        (4, ("mixed", V(0), ("cross", V(1), V(2)), ("cross", V(3), V(2)))), (3, ("cross", ("vadd", V(0), ("vscale", ("ssym", 0), V(1))), V(2)))]
+    for nv_, rec in same_family:
+        for rank in all_ranks(nv_, rng, ctx.pick(2, 6)):
+            job = {"id": jid, "recipe": rec, "nv": nv_, "ns": 2, "mode": rng.choice(["auto", "doit"]), "rank": rank, "same_name": True,
+                "envs": [vtree.rand_env(rng, nv_, 2).to_json() for _ in range(4)]}
+            jobs_by_seed[None].append(job)
+            meta[jid] = job
+            distinct.add(("same-name", rec))
+            jid += 1
     # norms of sums whose terms carry a common scalar factor or denominator (symbolic, integer, negative)
     inv = lambda num, d: ("sdiv", ("int", num), d)
     s0, s1 = ("ssym", 0), ("ssym", 1)
@@ -573,12 +604,13 @@ def decide_trees(ctx, meta, results, failed_rules, stream, hist_tags, hist_depth
         rec = vtree.totuple(job["recipe"])
         base = {"kind": "tree", "stream": stream, "recipe": job["recipe"], "shown": vx.show_recipe(rec), "nv": job["nv"], "ns": job["ns"],
             "nf": job.get("nf", 0), "mode": job["mode"], "rank": job["rank"], "spread": job.get("spread"), "spread_seed": job.get("spread_seed"),
+            "same_name": job.get("same_name"), "nfun2": job.get("nfun2"), "order": job.get("order"),
             "twice_form": job.get("twice_form"), "hashseed": r.get("hashseed", 0), "fired": r.get("fired"),
             "output": r.get("out_str")}
         if r["status"] == "recursion":
             cls = classify_recursion(r["cycle"])
-            ctx.violation(f"C14:diff:nontermination:{cls}" if job["mode"].startswith("diff") else f"C14:nontermination:{cls}",
-                f"{'differentiating' + (' twice' if job['mode'] == 'diff2' else '') if job['mode'].startswith('diff') else 'building'} "
+            ctx.violation(f"C14:diff:nontermination:{cls}" if job["mode"] in ("diff", "diff2", "partial") else f"C14:nontermination:{cls}",
+                f"{'differentiating' + (' twice' if job['mode'] == 'diff2' else '') if job['mode'] in ('diff', 'diff2', 'partial') else 'building'} "
                 f"{vx.show_recipe(rec)} does not terminate "
                 f"(RecursionError through {', '.join(r['cycle'])})", {**base, "observed": "RecursionError", "cycle": r["cycle"],
                 "expected": "a value", "theorem_or_tie": "termination of the constructors / of .diff()"}, True)
@@ -615,7 +647,7 @@ def decide_trees(ctx, meta, results, failed_rules, stream, hist_tags, hist_depth
                 # with the reported rule repaired, the same tree runs into the (separately reported) non-termination
                 cls = classify_recursion(r2["cycle"])
                 attributed += 1
-                ctx.violation(f"C14:diff:nontermination:{cls}" if job["mode"].startswith("diff") else f"C14:nontermination:{cls}",
+                ctx.violation(f"C14:diff:nontermination:{cls}" if job["mode"] in ("diff", "diff2", "partial") else f"C14:nontermination:{cls}",
                     f"{vx.show_recipe(rec)} does not terminate (RecursionError through {', '.join(r2['cycle'])})",
                     {**base, "observed": "RecursionError", "cycle": r2["cycle"], "expected": "a value"}, True)
                 continue
@@ -703,6 +735,8 @@ def diff_spec_lemmas(ctx, meta):
     Model/VecDiff.v, about which diff_terminates_and_leibniz is proved"""
     lemmas = []
     for jid, job in meta.items():
+        if job["mode"] == "partial":
+            continue                  # Model/VecDiff.v has one parameter
         rec = vtree.totuple(job["recipe"])
         atoms = {"v": set(range(job["nv"])), "s": set(range(job["ns"])), "f": set(range(job.get("nf", 0))), "par": True}
         twice = job["mode"] == "diff2"
@@ -740,7 +774,8 @@ def layer_diff(ctx, failed_rules):
         d = vx.recipe_depth(rec)
         hist_depth[d] = hist_depth.get(d, 0) + 1
         envs = [vtree.rand_env(rng, nv, ns, nf).to_json() for _ in range(4)]
-        job = {"id": jid, "recipe": rec, "nv": nv, "ns": ns, "nf": nf, "mode": "diff", "rank": all_ranks(nv, rng, 1)[0], "envs": envs}
+        job = {"id": jid, "recipe": rec, "nv": nv, "ns": ns, "nf": nf, "mode": "diff", "rank": all_ranks(nv, rng, 1)[0], "envs": envs,
+            "same_name": rng.random() < 0.25}
         jobs.append(job)
         meta[jid] = job
     jid = n
@@ -764,10 +799,28 @@ def layer_diff(ctx, failed_rules):
             meta[jid] = job
             distinct.add(("diff2", form, rec))
             jid += 1
+    # vector functions of two / three scalar arguments: mixed partial derivatives, both orders, nested and joint calls
+    G = lambda i: ("vfun2", i)
+    U = ("par2",)
+    pfam = [G(0), G(1), ("vscale", U, G(0)), ("vscale", ("smul", P, U), G(1)), ("dot", G(0), ("vscale", U, V(0))), ("cross", G(0), V(0)),
+        ("cross", G(1), ("vscale", ("smul", P, U), V(0))), ("mixed", G(0), G(1), V(0)), ("dot", G(0), G(0)), ("dot", G(0), G(1)),
+        ("vadd", G(0), ("vscale", P, G(1))), ("dot", F(0), G(0)), ("mixed", V(0), ("vscale", U, G(0)), ("vadd", V(1), ("vscale", P, G(1)))),
+        ("cross", ("vscale", U, V(0)), ("cross", G(0), V(1)))]
+    for rec in pfam:
+        for order in ("tu", "ut"):
+            for form in ("nested", "joint"):
+                job = {"id": jid, "recipe": rec, "nv": 2, "ns": 2, "nf": 3, "nfun2": 2, "mode": "partial", "order": order, "twice_form": form,
+                    "rank": all_ranks(2, rng, 1)[0], "same_name": rng.random() < 0.25,
+                    "envs": [vtree.rand_env(rng, 2, 2, 3, nf2=2).to_json() for _ in range(4)]}
+                jobs.append(job)
+                meta[jid] = job
+                distinct.add(("partial", order, form, rec))
+                jid += 1
     results = {r["id"]: r for r in run_jobs(jobs)}
     for r in results.values():
         r["hashseed"] = 0
     decide_trees(ctx, meta, results, failed_rules, "diff", hist_tags, hist_depth, len(distinct))
+    ctx.coverage["streams"]["diff"]["mixed_partial_builds"] = sum(1 for j in meta.values() if j["mode"] == "partial")
     ctx.coverage["streams"]["diff"]["second_derivative_builds"] = sum(1 for j in meta.values() if j["mode"] == "diff2")
     diff_spec_lemmas(ctx, meta)
 
